@@ -14,6 +14,7 @@ func init() {
 			c.ruleLazyIndexExclusive("R-LAZY-INDEX-EXCLUSIVE")
 			c.ruleLazyExpandBeforeDecode("R-LAZY-EXPAND-BEFORE-DECODE")
 			c.ruleLazyDepthScope("R-LAZY-DEPTH-SCOPE")
+			c.ruleLazyFlagGate("R-LAZY-FLAG-GATE")
 			c.ruleMergeLoop("R-MERGE-LOOP")
 			c.ruleLazyPassthrough("R-LAZY-PASSTHROUGH")
 			c.ruleDecodeSiblings("R-DECODE-SIBLINGS")
